@@ -1058,6 +1058,9 @@ impl Gen {
             1 => ops.push((self.any_asset(e, r), self.any_asset(e, r))), // dangling / unchained
             2 if ops.len() > 1 => { ops.swap(0, 1); }
             3 => { let x = ops[0]; ops.push(x); }
+            // identity hops (offer = ask): the shape check lets them through, no pair can exist for them
+            4 => { let a = ops[0].0; ops = vec![(a, a)]; }
+            5 if r.chance(1, 2) => { let a = ops[ops.len() - 1].1; ops.push((a, a)); }
             _ => {}
         }
         ops
